@@ -183,13 +183,27 @@ GLOBAL_FLAGS_WITH_ARG = frozenset(
 
 # Exec flags that take an argument
 EXEC_FLAGS_WITH_ARG = frozenset(
-    {"-e", "--env", "-w", "--workdir", "-u", "--user", "--env-file"}
+    {"-e", "--env", "-w", "--workdir", "-u", "--user", "--env-file", "--detach-keys"}
 )
+
+# Short exec flags that take an argument (may end a cluster: -itu USER)
+EXEC_SHORT_FLAGS_WITH_ARG = "ewu"
 
 # Exec flags that don't take an argument
 EXEC_FLAGS_NO_ARG = frozenset(
     {"-d", "--detach", "-i", "--interactive", "-t", "--tty", "--privileged"}
 )
+
+
+def _cluster_takes_next(token: str) -> bool:
+    """-itu USER: a short-flag cluster whose argument-taking flag comes last."""
+    if not token.startswith("-") or token.startswith("--"):
+        return False
+    for k in range(1, len(token)):
+        if token[k] in EXEC_SHORT_FLAGS_WITH_ARG:
+            # the rest of the cluster, if any, is the attached argument
+            return k == len(token) - 1
+    return False
 
 
 def _extract_exec_inner_command(tokens: list[str]) -> list[str] | None:
@@ -201,7 +215,7 @@ def _extract_exec_inner_command(tokens: list[str]) -> list[str] | None:
             # End of options; the next word is still the container name
             i += 2
             break
-        if token in EXEC_FLAGS_WITH_ARG:
+        if token in EXEC_FLAGS_WITH_ARG or _cluster_takes_next(token):
             i += 2
             continue
         if token.startswith("-"):
